@@ -165,7 +165,7 @@ def coverageLine (wanted : List (List Char)) (csv : String) : String :=
   let (missing, extra) := coverage wanted covered
   s!"ok covered={covered.length - extra.length}/{wanted.length} missing={showKeys missing} extra={showKeys extra}"
 
-/-- class tokens of the robustness streams carry suffixes (`m-z`, `m-u8p`, `pa-strr` …) that only select the receiver /
+/-- class tokens of the robustness streams carry suffixes (`m-z`, `m-u8p`, `ea-strr` …) that only select the receiver /
 element type on the Rust side, or mark a zero-size receiver; the model answer is that of the base class -/
 def baseCls (c : String) : String := (c.splitOn "-").headD c
 
@@ -185,7 +185,7 @@ def handleBase (parts : List String) (args : List String) : Option String :=
     let s ← unhex? h
     some (showParsed (if fl == "string" then parseString lowerRust p s else parseStr lowerRust p s))
   | ["C09", "p", tr, m], [_, e] => propagate (tr ++ "." ++ m) e
-  | ["C09", "pa", tr, m], _ :: e :: _ => propagate (tr ++ "." ++ m) e
+  | ["C09", "ea", tr, m], _ :: e :: _ => propagate (tr ++ "." ++ m) e
   | ["C09", "m", tr, m], s :: t => do let s ← parseNatList? s; runModel (tr ++ "." ++ m) s t
   | ["C09", "b", _, _], s :: t => do let s ← parseNatList? s; some (runBroadcast s t)
   | ["C09", "u", _, _], _ => some "err class-only"
